@@ -8,6 +8,8 @@ wsgiref.validate's reading of the PEP and the ASGI HTTP spec.  No hypercorn impo
 * `expected_response()` - what the client must see for an application *shape* (derived from the shape's
                           specification, never by running hypercorn)
 * `asgi_view(msgs)`     - a boring ASGI `send` consumer: status, headers, body, completeness, protocol errors
+* `check_flow(...)`     - the thread bridge is synchronous: what the application thread may observe of the
+                          sends (begun / completed / failed) each time it is asked for the next chunk
 """
 from __future__ import annotations
 
@@ -229,13 +231,20 @@ def environ_digest_view(snap: Any, body_read: Any) -> Any:
 # ---------------------------------------------------------------------------------------------
 # WSGI application shapes: what the client must see
 
-OK_KINDS = ("list", "gen_eager", "gen_lazy", "iter_close", "iter_close_lazy", "iterable_close", "twice_excinfo")
+# excinfo_first_*: start_response(status, headers) eagerly (or, _lazy_, inside the generator body), then - while the
+# FIRST chunk is being produced - start_response(EXCINFO_STATUS, EXCINFO_HEADERS, exc_info): nothing has been sent
+# yet, so the second call replaces the first (PEP 3333 "The start_response() Callable" / "Error Handling")
+EXCINFO_ITER_KINDS = ("excinfo_first_iter", "excinfo_first_gen", "excinfo_lazy_gen")
+OK_KINDS = ("list", "gen_eager", "gen_lazy", "iter_close", "iter_close_lazy", "iterable_close", "twice_excinfo") + \
+    EXCINFO_ITER_KINDS
 ERROR_KINDS = ("raise_before_sr", "raise_after_sr", "raise_mid_gen", "raise_mid_iter_close", "raise_lazy_first",
-               "no_sr_list", "no_sr_iter_close")
+               "no_sr_list", "no_sr_iter_close", "raise_lazy_after_sr", "raise_after_empties_gen")
 # kinds whose returned iterable is an object with a counted close() method
-CLOSEABLE_KINDS = ("iter_close", "iter_close_lazy", "iterable_close", "raise_mid_iter_close", "no_sr_iter_close")
+CLOSEABLE_KINDS = ("iter_close", "iter_close_lazy", "iterable_close", "raise_mid_iter_close", "no_sr_iter_close",
+                   "excinfo_first_iter")
 # kinds that never call start_response
 NO_SR_KINDS = ("raise_before_sr", "raise_lazy_first", "no_sr_list", "no_sr_iter_close")
+EMPTIES = (b"", b"")  # what raise_after_empties_gen yields before it raises
 EXCINFO_STATUS = "500 Internal Server Error"
 EXCINFO_HEADERS = (("Content-Type", "text/plain"), ("X-Replaced", "yes"))
 EXCINFO_CHUNKS = (b"handled",)
@@ -247,6 +256,19 @@ class Expected(NamedTuple):
     headers: Optional[List[Tuple[bytes, bytes]]]  # lower-cased names, latin-1 encoded
     produced: List[bytes]  # the chunks the iterable yields before it ends or raises
     closeable: bool  # the iterable has a close() method that must be called exactly once
+    # PEP 3333: "response headers must not be sent until there is actual body data available, or until the
+    # application's returned iterable is exhausted".  True for shapes that call start_response and then fail
+    # before the iterable has yielded anything: the status they set must never reach the client.
+    # (STRICT_NONEMPTY reads "actual body data" literally: empty chunks do not count.  wsgiref, the reference
+    # implementation, sends the headers with the first chunk even when it is empty, so this is opt-in.)
+    no_head: bool = False
+
+
+STRICT_NONEMPTY = [False]
+
+
+def _no_head(produced: Any) -> bool:
+    return not any(produced) if STRICT_NONEMPTY[0] else len(produced) == 0
 
 
 def wire_headers(headers: Any) -> List[Tuple[bytes, bytes]]:
@@ -258,12 +280,18 @@ def expected_response(kind: str, status: str, headers: Any, chunks: Any) -> Expe
     if kind == "twice_excinfo":
         # PEP 3333: a second start_response call with exc_info, before any output, replaces the headers
         return Expected(True, int(EXCINFO_STATUS.split(" ")[0]), wire_headers(EXCINFO_HEADERS), list(EXCINFO_CHUNKS), False)
+    if kind in EXCINFO_ITER_KINDS:
+        return Expected(True, int(EXCINFO_STATUS.split(" ")[0]), wire_headers(EXCINFO_HEADERS),
+                        list(EXCINFO_CHUNKS) + list(chunks), kind in CLOSEABLE_KINDS)
     if kind in OK_KINDS:
         return Expected(True, code, wire_headers(headers), list(chunks), kind in CLOSEABLE_KINDS)
     if kind in ("raise_mid_gen", "raise_mid_iter_close"):
-        return Expected(False, code, wire_headers(headers), list(chunks[:1]), kind in CLOSEABLE_KINDS)
-    if kind == "raise_after_sr":
-        return Expected(False, code, wire_headers(headers), [], False)
+        produced = list(chunks[:1])
+        return Expected(False, code, wire_headers(headers), produced, kind in CLOSEABLE_KINDS, _no_head(produced))
+    if kind in ("raise_after_sr", "raise_lazy_after_sr"):
+        return Expected(False, code, wire_headers(headers), [], False, True)
+    if kind == "raise_after_empties_gen":
+        return Expected(False, code, wire_headers(headers), list(EMPTIES), False, _no_head(EMPTIES))
     if kind in ("no_sr_list", "no_sr_iter_close"):
         return Expected(False, None, None, list(chunks), kind in CLOSEABLE_KINDS)
     if kind in ("raise_before_sr", "raise_lazy_first"):
@@ -351,6 +379,12 @@ def check_response(exp: Expected, view: View, extra_ok: Any = None) -> List[Tupl
         if exp.status is None:
             if not server_error:
                 bad.append(("response-status", f"invented-status-{view.status}", "start_response was never called"))
+        elif exp.no_head:
+            if not server_error:
+                bad.append(("response-head-before-data", f"got-{view.status}",
+                            f"the application set {exp.status} and failed before its iterable yielded "
+                            f"{'a non-empty chunk' if exp.produced else 'anything'}: that status must not be sent "
+                            f"(PEP 3333: headers only go out with the first body data or at exhaustion); want a 5xx or nothing"))
         elif view.status == exp.status:
             _cmp_headers(exp, view, extra_ok, bad)
             if not produced.startswith(view.body):
@@ -383,3 +417,37 @@ def _cmp_headers(exp: Expected, view: View, extra_ok: Any, bad: list) -> None:
     for n, v in leftovers:
         if not extra_ok(n):
             bad.append(("response-headers", "unexpected-extra", f"{n!r}: {v!r}"))
+
+
+# ---------------------------------------------------------------------------------------------
+# the thread bridge
+
+
+def check_flow(produced: List[bytes], marks: List[tuple]) -> List[Tuple[str, str, str]]:
+    """The WSGI side of the adapter is synchronous code: handing a block to the server is a blocking
+    call, so whenever the *application* runs again (it is asked for the next chunk, its iterable is
+    exhausted or closed) every send issued so far has completed and carried exactly the chunks yielded so
+    far (PEP 3333 'Buffering and Streaming': a block is passed on before the next one is requested; close()
+    comes 'upon completion of the current request'), and a send that failed ends the iteration: the only
+    thing the application still sees is close().
+
+    marks: (event, begun, ended, failed, ended_body_len) snapshots taken on the application thread at
+    each next / stop / raise / close; `produced`: the chunks the shape yields, in order."""
+    bad: List[Tuple[str, str, str]] = []
+    yielded = 0
+    for idx, (ev, begun, ended, failed, body_len) in enumerate(marks):
+        where = f"at app event #{idx} {ev!r} (after {yielded} chunk(s))"
+        if failed:
+            if ev != "close":
+                bad.append(("bridge-order", "send-error-not-propagated",
+                            f"{where}: a send had already failed, the application thread kept iterating"))
+        elif begun != ended:
+            bad.append(("bridge-order", "app-ran-ahead-of-send", f"{where}: {begun - ended} send(s) still in flight"))
+        else:
+            want = sum(len(c) for c in produced[:yielded])
+            if body_len != want:
+                bad.append(("bridge-order", "app-ran-ahead-of-send",
+                            f"{where}: completed sends carried {body_len} body bytes, the chunks yielded so far are {want}"))
+        if ev == "next":
+            yielded += 1
+    return bad
